@@ -3,6 +3,7 @@ package main
 import (
 	"bufio"
 	"encoding/json"
+	"errors"
 	"fmt"
 	"os"
 	"reflect"
@@ -615,6 +616,37 @@ func init() { commands["parse-events"] = parseEvents }
 
 // parse-events <cases.json>: records the parse-context operations of every parse through the verif hooks, in the event
 // syntax of ParserMachine.tla's evs variable: "id\tk\tindex\tevents".
+// errorKey renders the error a parse reported as "t,u": t = 1-based index of the raw token at the error's position
+// (0 = no position), u = 1 for an UnexpectedTokenError; "-" = no error, "?" = not observable this way.
+func errorKey(perr, lerr error, raw []lexer.Token) string {
+	if perr == nil {
+		return "-"
+	}
+	pe, ok := perr.(participle.Error)
+	if lerr != nil || !ok {
+		return "?"
+	}
+	u := 0
+	var ute *participle.UnexpectedTokenError
+	if errors.As(perr, &ute) {
+		u = 1
+	}
+	pos := pe.Position()
+	if pos == (lexer.Position{}) {
+		return fmt.Sprintf("0,%d", u)
+	}
+	for ti, t := range raw {
+		if t.Pos.Offset == pos.Offset && t.Pos.Line == pos.Line && t.Pos.Column == pos.Column {
+			// several tokens can share a position only if all but the last are empty; the unexpected token is named
+			if ute != nil && (t.Value != ute.Unexpected.Value || t.Type != ute.Unexpected.Type) {
+				continue
+			}
+			return fmt.Sprintf("%d,%d", ti+1, u)
+		}
+	}
+	return "?"
+}
+
 func parseEvents(args []string) error {
 	f, err := os.Open(args[0])
 	if err != nil {
@@ -652,11 +684,14 @@ func parseEvents(args []string) error {
 			}
 			for i, in := range g.Inputs {
 				sb.Reset()
+				er := "?"
 				func() {
 					defer func() { _ = recover() }()
-					_, _ = b.p.ParseString("fn", in.S, participle.AllowTrailing(b.trailing))
+					raw, lerr := b.p.Lex("fn", strings.NewReader(in.S))
+					_, perr := b.p.ParseString("fn", in.S, participle.AllowTrailing(b.trailing))
+					er = errorKey(perr, lerr, raw)
 				}()
-				fmt.Fprintf(w, "%s\t%d\t%d\t%s\n", g.ID, k, i, sb.String())
+				fmt.Fprintf(w, "%s\t%d\t%d\t%s\t%s\n", g.ID, k, i, sb.String(), er)
 			}
 		}
 	}
